@@ -151,6 +151,7 @@ def make_strategy():
 
 def to_case(v):
     toks, lseed, cseed = v
+    cseed = family.cfg_seed(cseed)
     rng = random.Random(lseed)
     src, r = layout.render(toks, rng, 'C', dict(p_trail=0.3, p_tab=0.25, p_cmt=0.1, blank=3))
     if lseed % 5 == 0:
@@ -162,6 +163,7 @@ def to_case(v):
 def main(ctx):
     quick = ctx.tier == 'quick'
     _EX.update(family.exclusions(ctx))
+    family.set_tier(ctx)
     ctx.rule = ('case = (source, language, config); judged when uncrustify exits 0; non-trivial = the input holds trailing blanks or a tab '
                 'after a space, or a tab / end-of-file option is set, and the output differs from the input; distinct by sha256')
     ctx.assumptions = ['exempt spans (comments, literals, disabled regions) are taken from the re-tokenised output and the independent lexer',
@@ -173,7 +175,7 @@ def main(ctx):
     for rel, lang in files:
         src = corpus.read(rel)
         for i in range(ncfg):
-            r = random.Random(core.subseed(ctx.seed, 'corpus', rel, i))
+            r = random.Random(core.subseed(ctx.useed, 'corpus', rel, i))
             s2 = src if (i % 2 == 0 or b'\x00' in src[:4096]) else rewhitespace(src, r)
             if r.random() < 0.15:
                 s2 = s2.rstrip(b'\r\n')
